@@ -111,42 +111,55 @@ def ensure_built(prop, extra_bins=()):
         fcntl.flock(lk, fcntl.LOCK_EX)
         coq = os.path.join(VERIF, "coq")
         rc, out = _sh(f"sh {VERIF}/tools/build_coq.sh 2>&1 | tail -60", 3600, VERIF)
-        props_v = os.path.join(coq, "theories", prop, "Props.v")
-        props_vo = props_v + "o"
-        b.obligations = len(re.findall(r"^\s*Theorem\s", open(props_v).read(), re.M))
-        if not os.path.exists(props_vo) or os.path.getmtime(props_vo) < os.path.getmtime(props_v):
+        import glob as _glob
+        props_files = sorted(_glob.glob(os.path.join(coq, "theories", prop, "*Props*.v")))
+        if not props_files:
             b.ok = False
-            m = re.search(r'File "\./(theories/[^"]+)", line (\d+)', out)
-            b.broken = f"{m.group(1)}:{m.group(2)}" if m else f"theories/{prop}/Props.v"
-            b.log = out[-3000:]
+            b.broken = f"theories/{prop}/Props.v missing"
             return b
+        b.obligations = sum(len(re.findall(r"^\s*Theorem\s", open(f).read(), re.M)) for f in props_files)
+        for props_v in props_files:
+            props_vo = props_v + "o"
+            if not os.path.exists(props_vo) or os.path.getmtime(props_vo) < os.path.getmtime(props_v):
+                b.ok = False
+                m = re.search(r'File "\./(theories/[^"]+)", line (\d+)', out)
+                b.broken = f"{m.group(1)}:{m.group(2)}" if m else os.path.relpath(props_v, coq)
+                b.log = out[-3000:]
+                return b
         if "Error" in out and f"theories/{prop}/" in out:
             b.ok = False
             b.broken = f"theories/{prop}"
             b.log = out[-3000:]
             return b
-        # assumptions transcript
+        # assumptions transcript (all property-theorem files of this property)
         tr = os.path.join(coq, "assumptions", f"{prop}.txt")
-        if not os.path.exists(tr) or os.path.getmtime(tr) < os.path.getmtime(props_vo):
+        newest = max(os.path.getmtime(f + "o") for f in props_files)
+        if not os.path.exists(tr) or os.path.getmtime(tr) < newest:
             tmpd = os.path.join(coq, "assumptions", f"tmp_{prop}_{os.getpid()}")
             os.makedirs(tmpd, exist_ok=True)
-            rc2, out2 = _sh(f"timeout 900 coqc -Q theories VF theories/{prop}/Props.v -o {tmpd}/Props.vo", 1000, coq)
+            text = ""
+            for props_v in props_files:
+                rel = os.path.relpath(props_v, coq)
+                base = os.path.basename(props_v)
+                rc2, out2 = _sh(f"timeout 900 coqc -Q theories VF {rel} -o {tmpd}/{base}o", 1000, coq)
+                if rc2 != 0:
+                    _sh(f"rm -rf {tmpd}", 60)
+                    b.ok = False
+                    b.broken = rel
+                    b.log = out2[-3000:]
+                    return b
+                text += out2
             _sh(f"rm -rf {tmpd}", 60)
-            if rc2 != 0:
-                b.ok = False
-                b.broken = f"theories/{prop}/Props.v"
-                b.log = out2[-3000:]
-                return b
             with open(tr, "w") as f:
-                f.write(out2)
+                f.write(text)
         text = open(tr).read()
-        n_print = len(re.findall(r"^\s*Print Assumptions", open(props_v).read(), re.M))
+        n_print = sum(len(re.findall(r"^\s*Print Assumptions", open(f).read(), re.M)) for f in props_files)
         n_closed = text.count("Closed under the global context")
         axioms = re.findall(r"^([A-Za-z_][\w.']*)\s*:", text, re.M) if "Axioms:" in text else []
         b.axioms = axioms
-        if n_closed + (1 if axioms else 0) < n_print and not axioms:
+        if n_closed < n_print:
             b.ok = False
-            b.broken = f"theories/{prop}/Props.v (Print Assumptions transcript incomplete)"
+            b.broken = f"theories/{prop}: {n_print - n_closed} Print Assumptions block(s) not closed under the global context: {axioms[:5]}"
             return b
         b.discharged = b.obligations
         # drivers
@@ -449,7 +462,7 @@ class Check:
                     path = self.write_replay("no-failing-input-found", disagree_first[0], detail)
                 violations.append((path, " no-failing-input-found"))
         if self.tier == "thorough" and build.ok:
-            rc, out = _sh(f"timeout 1500 coqchk -silent -o -Q theories VF VF.{self.ident}.Props 2>&1 | tail -30", 1600,
+            rc, out = _sh(f"timeout 1500 coqchk -silent -o -Q theories VF {self.coqchk_modules()} 2>&1 | tail -30", 1600,
                           os.path.join(VERIF, "coq"))
             m = re.search(r"\* Axioms:(.*?)\n\s*\n", out, re.S)
             report["extra"]["coqchk"] = {"axioms": (m.group(1).strip() if m else "unparsed"),
@@ -469,6 +482,11 @@ class Check:
               f"impl_failures={report['impl_failures']} theorems={build.discharged}/{build.obligations} "
               f"wall={wall:.1f}s")
         return 1 if violations else 0
+
+    def coqchk_modules(self):
+        import glob as _glob
+        fs = sorted(_glob.glob(os.path.join(VERIF, "coq", "theories", self.ident, "*Props*.v")))
+        return " ".join(f"VF.{self.ident}.{os.path.basename(f)[:-2]}" for f in fs)
 
     def model_should_hold(self, case):
         return True
